@@ -390,8 +390,21 @@ def run(ctx):
     rejects = judge(ctx, scripts, out["rows"], shapes, reals, traces, "all")
 
     # 8. classification
-    rej_trace = {o["idx"]: o["reasons"] for o in rejects if o["kind"] == "trace"}
     n_viol = 0
+    # at most CAP violations are written out per kind and reason set; the rest is counted
+    CAP = 3
+    seen_classes = {}
+    suppressed = [0]
+    _violation = ctx.violation
+
+    def capped(what, rp, cls):
+        if "key" in rp:
+            return _violation(what, rp)
+        seen_classes[cls] = seen_classes.get(cls, 0) + 1
+        if seen_classes[cls] > CAP:
+            suppressed[0] += 1
+            return True
+        return _violation(what, rp)
     for o in rejects:
         if o["kind"] == "row":
             row = out["rows"][o["idx"] - 1]
@@ -407,12 +420,12 @@ def run(ctx):
             what = "rac.Writer run rejected by RacWriter!RowReasons %s: %s mode n=%d, Write calls %s, configuration %s: replies %s, chunks in file %s, read back %s %s" % (
                 o["reasons"], s["kind"], s["n"], ["".join(x) for x in s["calls"]], c["name"], row["replies"],
                 [(p["d"], "".join(p["x"])) for p in row["chunks"]], "".join(row["readback"]), row["readerr"])
-            n_viol += bool(ctx.violation(what, rp))
+            n_viol += bool(capped(what, rp, ("row", tuple(o["reasons"]), c["name"])))
         elif o["kind"] == "shape":
             sh = shapes[o["idx"] - 1]
             what = "fault run rejected by RacWriter!StickyReasons %s: %d calls, fault (%s) fired in call %d, replies %s (%d runs; e.g. %s)" % (
                 o["reasons"], sh["n"], sh["op"], sh["f"], sh["replies"], sh["count"], sh["sample"])
-            n_viol += bool(ctx.violation(what, {"mode": "shape", "shape": sh, "reasons": o["reasons"]}))
+            n_viol += bool(capped(what, {"mode": "shape", "shape": sh, "reasons": o["reasons"]}, ("shape", tuple(o["reasons"]), sh["op"])))
         elif o["kind"] == "real":
             row = reals[o["idx"] - 1]
             job = jobs[row["job"] - 1]
@@ -423,7 +436,7 @@ def run(ctx):
             what = "real-data run '%s' rejected by RacWriter!RealReasons %s: %d calls, replies ok=%s, read back %d/%d bytes, first difference at %d, error %s%s" % (
                 job["name"], o["reasons"], row["ncalls"], row["allok"], row["readlen"], row["origlen"], row["firstdiff"],
                 row["readerr"] or row["firsterr"], " (passes when no Write starts with a zero byte)" if row["shiftrun"] and row["shiftedok"] else "")
-            n_viol += bool(ctx.violation(what, rp))
+            n_viol += bool(capped(what, rp, ("real", tuple(o["reasons"]))))
     for o in rejects:
         if o["kind"] != "trace":
             continue
@@ -447,7 +460,9 @@ def run(ctx):
             rp["mode"] = "real"
             where = "real-data job " + job["name"]
         what = "file produced by rac.Writer (Close = nil) rejected by Trace_RacFormat %s: %s" % (o["reasons"], where)
-        n_viol += bool(ctx.violation(what, rp))
+        n_viol += bool(capped(what, rp, ("trace", tuple(o["reasons"]))))
+    if suppressed[0]:
+        ctx.log("%d further rejected items of the same kinds are not written out (%d rejected in total)" % (suppressed[0], len(rejects)))
 
     # model fidelity (not a verdict): how often did the implementation-shaped layer predict the chunks exactly
     base_ok, base_total = out["stats"]["pred_ok"][0], out["stats"]["pred_total"][0]
